@@ -22,7 +22,7 @@ def workdir_for(prop):
 def write_replay(prop, skey, e):
     case = e["case"]
     rid = short_hash([skey])
-    path = os.path.join(VERIF, "replays", prop, "%s-%s.json" % (re.sub(r"[^A-Za-z0-9_.-]+", "_", e["sig"]["kind"] + "_" + e["sig"]["op"] + "_" + e["sig"]["fclass"])[:60], rid))
+    path = os.path.join(os.environ.get("VERIF_REPLAY_DIR", os.path.join(VERIF, "replays")), prop, "%s-%s.json" % (re.sub(r"[^A-Za-z0-9_.-]+", "_", e["sig"]["kind"] + "_" + e["sig"]["op"] + "_" + e["sig"]["fclass"])[:60], rid))
     obj = {"property": prop, "signature": e["sig"], "count": e["count"], "detail": e["detail"], "case": case.to_json() if case is not None else None,
            "sanitizer_report": e.get("stderr", "")[:5000], "how_to_replay": "./check --replay " + os.path.relpath(path, VERIF)}
     if e.get("extra"):
@@ -160,7 +160,8 @@ def dict_check(prop, tier, seed, wd, explore, limit, kinds, write_evidence, case
 @register("C01")
 def c01(prop, tier, seed, wd, explore, limit, kinds, we):
     cases = P.basic_cases(prop, seed, tier, ops=("locate", "extract"))
-    rule = ("corner corpus + seeded random input sets x 13 kinds x seeded parameter vector x 2 of {fresh, own loader, generic loader}; a case is (kind, params, input set, state); "
+    cases += P.boundary_sweep(prop, seed, tier, ("locate", "extract"), states=("own", "fresh", "resaved"))
+    rule = ("every dictionary size 1..34 x bucket sizes 2,3,4,8 for the five front-coding kinds (boundary sweep); corner corpus + seeded random input sets x 13 kinds x seeded parameter vector x 2 of {fresh, own loader, generic loader}; a case is (kind, params, input set, state); "
             "non-trivial = completed case with >=2 strings and, for front-coding kinds, >=2 buckets or a partially filled last bucket; distinct by hash of (kind, params, input, state)")
     return dict_check(prop, tier, seed, wd, explore, limit, kinds, we, cases, rule)
 
@@ -170,6 +171,7 @@ RULE_BASE = ("corner corpus (%d fixed sets) + seeded random input sets from 22 f
 @register("C02")
 def c02(prop, tier, seed, wd, explore, limit, kinds, we):
     cases = P.basic_cases(prop, seed, tier, ops=("locate_absent", "extract_badid"))
+    cases += P.boundary_sweep(prop, seed, tier, ("locate_absent", "extract_badid"), bsizes=(2, 4))
     def nt(case, cnt):
         return P.nt_fc_or_any(case, cnt) and cnt.get("absent_classes_hit", 0) >= 6
     return dict_check(prop, tier, seed, wd, explore, limit, kinds, we, cases, RULE_BASE + "; additionally >=6 distinct absent-string classes were queried in the case",
@@ -187,6 +189,7 @@ def c04(prop, tier, seed, wd, explore, limit, kinds, we):
             return [(r.choice([2, 3, 4, 5, 8]),), (r.choice([2, 3, 4, 7, 16, 64, len(S) + 1]),)]
         return P.param_vectors(kind, r, S, 1)
     cases = P.basic_cases(prop, seed, tier, ops=("locatePrefix", "extractPrefix", "extract"), kinds=PREFIXK, kind_params=kp, per_input_states=1)
+    cases += P.boundary_sweep(prop, seed, tier, ("locatePrefix", "extractPrefix"), bsizes=(2, 3, 4))
     def nt(case, cnt):
         return P.nt_fc_or_any(case, cnt) and cnt.get("eval.locatePrefix", 0) >= 5
     return dict_check(prop, tier, seed, wd, explore, limit, kinds, we, cases, RULE_BASE + "; prefix-capable kinds only; >=5 prefix patterns answered",
@@ -213,10 +216,12 @@ def c05(prop, tier, seed, wd, explore, limit, kinds, we):
 @register("C13")
 def c13(prop, tier, seed, wd, explore, limit, kinds, we):
     def kp(kind, r, S):
-        if kind in FC:
-            return [(r.choice([2, 3, 4, 5, 6, 7, 8]),)]
+        if kind in FC:   # small buckets: scans start at every in-bucket offset; large ones: long runs of internal strings
+            return [(r.choice([2, 3, 4, 5, 6, 7, 8]),), (r.choice([16, 32, 64, len(S) + 1]),)]
         return P.param_vectors(kind, r, S, 1)
-    cases = P.basic_cases(prop, seed, tier, ops=("extractTable", "extract", "locatePrefix", "extractPrefix", "locateSubstr", "extractSubstr"), kind_params=kp, per_input_states=2)
+    cases = P.basic_cases(prop, seed, tier, ops=("extractTable", "extract", "locatePrefix", "extractPrefix", "locateSubstr", "extractSubstr"), kind_params=kp, per_input_states=1)
+    cases += P.basic_cases(prop, seed + 7919, tier, ops=("extractTable", "extract", "locatePrefix", "extractPrefix", "locateSubstr", "extractSubstr"), kinds=[k for k in KINDS if k not in FC], per_input_states=1, corner=False)
+    cases += P.boundary_sweep(prop, seed, tier, ("extractTable", "extractPrefix"), bsizes=(2, 3, 4))
     return dict_check(prop, tier, seed, wd, explore, limit, kinds, we, cases, RULE_BASE + "; table scan on every kind that implements it, every ID/string iterator drained with a cap of n+2")
 
 @register("C15")
@@ -246,9 +251,54 @@ def c16(prop, tier, seed, wd, explore, limit, kinds, we):
 @register("C08")
 def c08(prop, tier, seed, wd, explore, limit, kinds, we):
     cases = P.basic_cases(prop, seed, tier, ops=("save", "meta"), states=("fresh", "own", "gen", "resaved"), per_input_states=3, n_random=36 if tier == "quick" else 300, max_n=2000)
+    cases += fill_cases(prop, seed, tier, ("final_image", "meta"), n_random=40 if tier == "quick" else 300)
     def nt(case, cnt):
-        return len(case.S) >= 2 and cnt.get("eval.save", 0) >= 3
-    return dict_check(prop, tier, seed, wd, explore, limit, kinds, we, cases, RULE_BASE + "; three saves with queries and an open iterator in between", nontrivial=nt)
+        return len(case.S) >= 2 and (cnt.get("eval.save", 0) >= 3 or "fill" in case.tags)
+    def post(run):
+        return fill_compare(run, prop)
+    return dict_check(prop, tier, seed, wd, explore, limit, kinds, we, cases, RULE_BASE + "; three saves with queries and an open iterator in between; re-saved images reloaded and checked against the model; "
+                      "two independent builds under different heap fill bytes must give byte-identical images (no uninitialised memory in the image)", nontrivial=nt, post=post, required=("fill_differential",))
+
+def fill_cases(prop, seed, tier, ops, n_random=12):
+    """the same case under two different heap fill patterns: any difference is uninitialised memory influencing results or reaching the image"""
+    out = []
+    sets = P.input_sets(prop, seed, tier, n_random=n_random, max_n=1500)
+    for ii, (iname, S) in enumerate(sets):
+        for kind in KINDS:
+            if kind == "XBW" and not P.xbw_ok(S):
+                continue
+            r = P.rng_for(seed, prop, 40000 + ii * 100 + KINDS.index(kind))
+            p = P.param_vectors(kind, r, S, 1)[0]
+            if kind == "BLOCKS":
+                p = (p[0], p[1], 1)   # one worker: the allocation order is then deterministic too
+            for fill in (0x41, 0xBE):
+                out.append(Case(kind, p, iname, S, "fresh", 1, ops, seed=gen.splitmix(seed, ii, 17), tags=("fill", "fill%d" % fill),
+                                env={"ASAN_OPTIONS": "+max_malloc_fill_size=1073741824:malloc_fill_byte=%d" % fill}))
+    return out
+
+def fill_compare(run, prop, answers=False):
+    groups = collections.OrderedDict()
+    for case, res in run.results:
+        if "fill" in case.tags and res["status"] == "ok":
+            groups.setdefault((case.kind, case.p, case.ihash(), case.seed), []).append((case, res["out"]))
+    n = 0
+    for key, mem in groups.items():
+        if len(mem) != 2:
+            continue
+        (ca, oa), (cb, ob) = mem
+        n += 1
+        ia, ib = oa["images"].get("final"), ob["images"].get("final")
+        if ia and ib and ia != ib:
+            sig = dict(property=prop, kind=ca.kind, state="fresh", op="save", fclass="uninit-in-image", site="oracle", qcls="fill-differential")
+            run.add_finding(sig, ca, "images of two builds differ under heap fill bytes 0x41 / 0xBE (len %d vs %d): uninitialised memory reaches the image" % (ia[1], ib[1]))
+        if answers:
+            for sec in sorted(set(oa["tsec"]) & set(ob["tsec"])):
+                if oa["tsec"][sec][0] != ob["tsec"][sec][0]:
+                    sig = dict(property=prop, kind=ca.kind, state="fresh", op=sec, fclass="uninit-influences-answers", site="oracle", qcls="fill-differential")
+                    run.add_finding(sig, ca, "section %s differs between heap fill bytes 0x41 and 0xBE" % sec)
+    run.counters["eval.fill_differential_pairs"] += n
+    run.counters["cls.fill_differential"] += n
+    return {"fill_differential_pairs": n}
 
 @register("C07")
 def c07(prop, tier, seed, wd, explore, limit, kinds, we):
@@ -263,6 +313,166 @@ def c07(prop, tier, seed, wd, explore, limit, kinds, we):
             p = P.param_vectors(kind, r, S, 1)[0]
             grow.append(Case(kind, p, iname, S, r.choice(["fresh", "own"]), P.opt_for(kind, r), ("locate", "extract", "extractTable"), memalloc=r.choice([1, 2, 3, 16, 64, 1024]), seed=seed))
     cases += grow
+    cases += P.boundary_sweep(prop, seed, tier, ("locate", "extract", "extractTable"), states=("own", "gen", "resaved"))
+    cases += fill_cases(prop, seed, tier, ("locate", "extract", "locate_absent", "extractTable", "final_image", "meta"), n_random=12 if tier == "quick" else 100)
     def nt(case, cnt):
         return len(case.S) >= 2
-    return dict_check(prop, tier, seed, wd, explore, limit, kinds, we, cases, RULE_BASE + "; every public operation incl. unsupported ones, save, both loaders, destruction; plus MEMALLOC override cases that force Reallocate", nontrivial=nt)
+    def post(run):
+        return fill_compare(run, prop, answers=True)
+    return dict_check(prop, tier, seed, wd, explore, limit, kinds, we, cases, RULE_BASE + "; every public operation incl. unsupported ones, save, both loaders, destruction; MEMALLOC override cases that force Reallocate; "
+                      "boundary sweep of dictionary sizes; malloc-fill differential (same case under two heap fill bytes must give identical transcripts and images)", nontrivial=nt, post=post,
+                      required=("growth_n",))
+
+# ---------------------------------------------------------------------------------------------------- transcript differencing
+def compare_groups(run, prop, key_fn, comparable_fn, what):
+    """post hook: cases with the same key must have equal transcript sections; comparable_fn(a, b, section) -> 'raw' | 'norm' | None"""
+    groups = collections.OrderedDict()
+    for case, res in run.results:
+        if res["status"] != "ok":
+            continue
+        groups.setdefault(key_fn(case), []).append((case, res["out"]["tsec"]))
+    ncmp = 0
+    ngroups = 0
+    for key, members in groups.items():
+        if len(members) < 2:
+            continue
+        ngroups += 1
+        base_case, base = members[0]
+        for case, ts in members[1:]:
+            for sec in sorted(set(base) & set(ts)):
+                mode = comparable_fn(base_case, case, sec)
+                if not mode:
+                    continue
+                ncmp += 1
+                a, b = base[sec], ts[sec]
+                same = (a[0] == b[0] and a[2] == b[2]) if mode == "raw" else (a[1] == b[1])
+                if not same:
+                    sig = dict(property=prop, kind=case.kind, state=case.state, op=sec, fclass="transcript-differs", site="oracle", qcls=what)
+                    run.add_finding(sig, case, "section %s (%s) of %s differs from %s p=%s state=%s opt=%d on input %s"
+                                    % (sec, mode, "%s p=%s state=%s opt=%d" % (case.kind, case.p, case.state, case.opt), base_case.kind, base_case.p, base_case.state, base_case.opt, case.iname))
+    run.counters["eval.transcript_comparison"] += ncmp
+    return {"transcript_groups_compared": ngroups, "transcript_section_comparisons": ncmp}
+
+@register("C06")
+def c06(prop, tier, seed, wd, explore, limit, kinds, we):
+    cases = []
+    sets = P.input_sets(prop, seed, tier, n_random=30 if tier == "quick" else 300, max_n=3000)
+    for ii, (iname, S) in enumerate(sets):
+        for kind in KINDS:
+            if kind == "XBW" and not P.xbw_ok(S):
+                continue
+            r = P.rng_for(seed, prop, ii * 100 + KINDS.index(kind))
+            p = P.param_vectors(kind, r, S, 1)[0]
+            if kind == "FMINDEX" and not P.fm_ok(S, p):
+                p = (p[0], p[1], 4)
+            cseed = gen.splitmix(seed, ii, 11)
+            states = [("fresh", 1), ("own", 1), ("concat", 1)]
+            if kind != "BLOCKS":
+                states.append(("gen", 1))
+            if kind in ("HASHHF", "HASHRPF"):
+                states += [("own", 2), ("gen", 3), ("own", 3)]
+            for st, opt in states:
+                cases.append(Case(kind, p, iname, S, st, opt, (), big=(tier == "thorough"), seed=cseed, group=(kind, p, iname)))
+    def cmpfn(a, b, sec):
+        return "raw"
+    def post(run):
+        return compare_groups(run, prop, lambda c: (c.kind, c.p, c.ihash(), c.seed), cmpfn, "state-vs-state")
+    def nt(case, cnt):
+        return case.state != "fresh" and len(case.S) >= 2
+    return dict_check(prop, tier, seed, wd, explore, limit, kinds, we, cases,
+                      RULE_BASE + "; each (kind, params, input) is run fresh, through its own loader, through the generic loader, from a concatenation of two images, and with load options 1..3 for HASHHF/HASHRPF; "
+                      "all transcripts (every locate/extract/absent/bad-id/rank/prefix/substring/table answer) must be equal and agree with the model; non-trivial = loaded state with >= 2 strings",
+                      nontrivial=nt, post=post, required=("concat_images",))
+
+@register("C12")
+def c12(prop, tier, seed, wd, explore, limit, kinds, we):
+    cases = []
+    sets = P.input_sets(prop, seed, tier, n_random=24 if tier == "quick" else 200, max_n=3000)
+    for ii, (iname, S) in enumerate(sets):
+        n = len(S)
+        textlen = sum(len(s) + 1 for s in S)
+        cseed = gen.splitmix(seed, ii, 13)
+        qbs = 4
+        for kind in KINDS:
+            if kind == "XBW":
+                continue    # a single configuration: nothing to compare
+            r = P.rng_for(seed, prop, ii * 100 + KINDS.index(kind))
+            if kind in FC:
+                pvs = [(0,), (1,), (2,)] + [(b,) for b in r.sample([3, 4, 5, 7, 8, 16, 64, max(2, n - 1), max(2, n), n + 1, 4096], 2)]
+            elif kind in ("HASHHF", "HASHRPF", "HASHUFFDAC", "HASHRPDAC"):
+                pvs = [(o,) for o in r.sample([0, 1, 10, 25, 50, 100, 300], 3)]
+            elif kind == "BLOCKS":
+                cuts = [1, min(len(s) for s in S) + 1, max(1, textlen // 2), max(1, textlen // 3), max(1, textlen // 7), textlen + 10]
+                pvs = [(r.choice([0, 25, 100]), c, t) for c, t in zip(r.sample(cuts, 3), r.sample([1, 2, 3, 4, 8], 3))]
+            elif kind == "FMINDEX":
+                pvs = [(0, r.choice([1, 2, 4, 20, 40]), r.choice([1, 2, 3, 4])), (1, r.choice([1, 8, 16, 32, 128]), r.choice([8, 16, 64, textlen + 5])), (r.choice([0, 1]), 20, 0)]
+            else:
+                pvs = [()]
+            for p in pvs:
+                if kind == "FMINDEX" and not P.fm_ok(S, p):
+                    p = (p[0], p[1], 8)
+                st = r.choice(["own", "fresh"])
+                opts = [1] if kind not in ("HASHHF", "HASHRPF") or st == "fresh" else [r.choice([1, 2, 3])]
+                for opt in opts:
+                    cases.append(Case(kind, p, iname, S, st, opt, (), big=(tier == "thorough"), seed=cseed, extra=("--qbs", str(qbs)), tags=("clamp",) if kind in FC and p[0] < 2 else ()))
+    RAW_SECS = {"locate", "extract", "absent", "badid", "rank", "table", "locatePrefix", "extractPrefix", "locateSubstr", "extractSubstr"}
+    def cmpfn(a, b, sec):
+        if a.kind in ORDERED and b.kind in ORDERED:
+            if sec in ("locatePrefix", "extractPrefix", "locateSubstr", "extractSubstr") and (a.kind != b.kind and not (a.kind in FC + ["RPDAC", "FMINDEX"] and b.kind in FC + ["RPDAC", "FMINDEX"])):
+                return None
+            return "raw" if sec in RAW_SECS else "norm"
+        if a.kind == b.kind and a.p == b.p:
+            return "raw" if sec in RAW_SECS else "norm"
+        return "norm" if sec in ("meta", "locate", "absent", "badid", "table") else None
+    def post(run):
+        return compare_groups(run, prop, lambda c: (c.ihash(), c.seed), cmpfn, "params-vs-params")
+    def nt(case, cnt):
+        return len(case.S) >= 2
+    return dict_check(prop, tier, seed, wd, explore, limit, kinds, we, cases,
+                      RULE_BASE + "; every input is built under several parameter vectors per kind (bucket sizes incl. 0 and 1 for the clamp, overheads, bitmap kinds/samplings, BWT samplings, cut sizes, thread counts, load options) with "
+                      "identical query sets (--qbs); raw transcripts (IDs included) must agree across all order-preserving kinds and parameters, normalised transcripts across hash kinds",
+                      nontrivial=nt, post=post)
+
+_c16_dict = REGISTRY["C16"]
+@register("C16")
+def c16_full(prop, tier, seed, wd, explore, limit, kinds, we):
+    def kp(kind, r, S):
+        if kind == "FMINDEX":
+            return [(r.choice([0, 1]), r.choice([4, 16, 20]), 0)]
+        return P.param_vectors(kind, r, S, 1)
+    cases = P.basic_cases(prop, seed, tier, ops=("unsupported",), kind_params=kp, per_input_states=2, n_random=30 if tier == "quick" else 200)
+    # loaders: every own loader on an image of every other kind; generic loader on unknown tags
+    sets = P.input_sets(prop, seed, tier, n_random=6 if tier == "quick" else 40, max_n=500)
+    pick = [s for i, s in enumerate(sets) if i % 9 == 0][:10 if tier == "quick" else 40]
+    for ii, (iname, S) in enumerate(pick):
+        for kind in KINDS:
+            if kind == "XBW" and not P.xbw_ok(S):
+                continue
+            r = P.rng_for(seed, prop, 70000 + ii * 100 + KINDS.index(kind))
+            p = P.param_vectors(kind, r, S, 1)[0]
+            cases.append(Case(kind, p, iname, S, "own", 1, ("foreign_loaders", "bad_tags", "meta"), seed=seed, extra=("--tag-from", "0", "--tag-to", "4096", "--tag-random", "20000" if tier == "quick" else "200000")))
+    exhaustive = False
+    if tier == "thorough":
+        # all 2^32 type tags, partitioned over 64 processes of the optimised flavor
+        S = gen.corner_corpus()[2][1]
+        step = (1 << 32) // 64
+        for k in range(64):
+            cases.append(Case("PFC", (4,), "chain3", S, "own", 1, ("bad_tags", "meta"), seed=seed, flavor="fast", cpu=900,
+                              extra=("--tag-from", str(k * step), "--tag-to", str((k + 1) * step if k < 63 else (1 << 32)), "--tag-random", "0")))
+        exhaustive = True
+    def nt(case, cnt):
+        return cnt.get("eval.unsupported", 0) + cnt.get("eval.foreign_loader", 0) + cnt.get("eval.bad_tag", 0) >= 1
+    rule = (RULE_BASE + "; at least one unsupported operation / foreign loader / unknown tag was exercised. Loader part: 12 foreign own-loaders per image; generic loader on tags 0..4095, "
+            "neighbours of the known tags and random tags (quick), all 2^32 tags except the 12 dispatchable ones (thorough, exhaustive for that sub-space)")
+    fl = ("asan", "fast") if tier == "thorough" else ("asan",)
+    for f in fl:
+        build(f)
+    known = Known()
+    run = DictRun(prop, tier, seed, wd, known)
+    if kinds:
+        cases = [c for c in cases if c.kind in kinds]
+    if limit:
+        cases = cases[:limit]
+    t0 = time.time()
+    run.run_all(cases, nt)
+    return finish(prop, tier, seed, run, time.time() - t0, rule, explore=explore, write_evidence=we, extra_cov={"all_2p32_tags_enumerated": exhaustive})
